@@ -302,7 +302,7 @@ def image_paths(prog, rep):
     from mirq.paths import Paths as _P, Unsupported as _U, passes_result as _pr, show_fact as _sf
     ok, found = True, []
     try:
-        summs = _P(prog, inline=lambda g: prog.is_new(g)).of(dr)
+        summs = _P(prog, inline=lambda g: prog.is_new(g), local_effects=True).of(dr)   # the translated target may live in a local
         ok = len(summs) >= 1
         for sm in summs:
             cs = [e[1] for e in sm.effects if e[0] == "call" and e[1][1].split("::")[-1] == "draw"]
